@@ -94,6 +94,18 @@ bool prop_run(Tape &t, Report &r) {
   if (eos_count != 1) return r.fail("%d packets carry e_o_s [%s]", eos_count, cd.c_str());
   if (s.audio.back().granulepos != N) return r.fail("last packet granulepos %lld != N=%lld [%s]", (long long)s.audio.back().granulepos, (long long)N, cd.c_str());
 
+  // (a') the other documented way of getting packets out of an unmanaged encoder, vorbis_analysis(&vb,&op), must produce the same stream;
+  //      a bitrate-managed encoder must refuse it with OV_EINVAL and carry on through the bitrate API unharmed
+  if (g_tape_gen >= 4 && N <= 40000 && t.chance(1, 4)) {
+    Encoder e2; e2.direct = true; if (e2.setup(cfg) != 0) return r.fail("second set-up with the same arguments refused [%s]", cd.c_str());
+    LStream s2; s2.serial = s.serial; std::string err2;
+    if (e2.start(s2) != 0 || enc_feed(e2, cfg.channels, sig, N, pieces, da, s2, err2) != 0) return r.fail("direct packet output: %s %s [%s]", e2.err.c_str(), err2.c_str(), cd.c_str());
+    r.label(e2.direct_refused ? "direct packet output refused (managed), bitrate API continues" : "direct packet output compared");
+    if (s2.audio.size() != s.audio.size()) return r.fail("direct packet output gives %zu packets, the bitrate API %zu [%s]", s2.audio.size(), s.audio.size(), cd.c_str());
+    for (size_t i = 0; i < s.audio.size(); i++) { const Pkt &a = s.audio[i], &b = s2.audio[i];
+      if (a.data != b.data || a.granulepos != b.granulepos || a.eos != b.eos || a.packetno != b.packetno)
+        return r.fail("packet %zu differs between vorbis_analysis(&vb,&op) and the bitrate API: %zu/%zu bytes, granulepos %lld/%lld, e_o_s %d/%d, packetno %lld/%lld [%s]", i, b.data.size(), a.data.size(), (long long)b.granulepos, (long long)a.granulepos, (int)b.eos, (int)a.eos, (long long)b.packetno, (long long)a.packetno, cd.c_str()); }
+  }
   // (b) packet-level decode
   DecodeResult d;
   if (!decode_packets(s, d)) return r.fail("decoder refuses encoder headers: %d %d %d init=%d [%s]", d.hdr_ret[0], d.hdr_ret[1], d.hdr_ret[2], d.init_ret, cd.c_str());
